@@ -18,7 +18,8 @@ pub struct ChunkReader<'a> {
     pub data: &'a [u8],
     pub pos: usize,
     pub rng: Rng,
-    /// 0: one byte per call, 1: random chunks, 2: random chunks + spurious Interrupted
+    /// 0: one byte per call, 1: random chunks, 2: random chunks + spurious Interrupted,
+    /// 3: a first chunk shorter than the header, then random chunks
     pub mode: u8,
     pub fail_at: Option<usize>,
 }
@@ -36,6 +37,7 @@ impl Read for ChunkReader<'_> {
         let remaining = self.data.len() - self.pos;
         let mut n = match self.mode {
             0 => 1,
+            3 if self.pos == 0 => 1 + self.rng.below(20),
             _ => 1 + self.rng.below(4096),
         };
         n = n.min(remaining).min(buf.len());
@@ -428,12 +430,12 @@ pub fn c09_case(ctx: &mut Ctx, _rng: &mut Rng, stage: &str) {
         return;
     }
     // ---- shard 0: the full image through hostile readers, wrong magic, writer faults
-    for mode in 0..3u8 {
+    for mode in 0..4u8 {
         ctx.eval();
         let rdr = ChunkReader { data: &img, pos: 0, rng: Rng(which + mode as u64), mode, fail_at: None };
         match guarded(|| Dictionary::read(rdr)) {
             Ok(Ok(d)) => match write_dict(&d) {
-                Ok((b, _)) if b == img => ctx.bucket(["reader_1_byte_per_call_ok", "reader_random_chunks_ok", "reader_spurious_interrupted_ok"][mode as usize]),
+                Ok((b, _)) if b == img => ctx.bucket(["reader_1_byte_per_call_ok", "reader_random_chunks_ok", "reader_spurious_interrupted_ok", "reader_short_first_chunk_ok"][mode as usize]),
                 _ => ctx.violation("chunked_read_changes_dictionary", "C09:chunked_read_changes_dictionary", format!("reader mode {mode}"), cj(n)),
             },
             Ok(Err(e)) => ctx.violation("full_image_rejected_with_chunked_reader", "C09:full_image_rejected_with_chunked_reader", format!("reader mode {mode}: {e}"), cj(n)),
@@ -481,6 +483,15 @@ pub fn c09_case(ctx: &mut Ctx, _rng: &mut Rng, stage: &str) {
                 Ok(true) => ctx.violation("foreign_magic_accepted", "C09:foreign_magic_accepted", what.clone(), json!({"what": what})),
                 Err(p) => ctx.violation("read_panicked_on_foreign_magic", &format!("C09:magic:{}", panic_class(&p)), format!("{what}: {p}"), json!({"what": what})),
             }
+            // the same stream delivered one byte per read call, and in random chunks (pipes, sockets)
+            for mode in [0u8, 3] {
+                let rdr = ChunkReader { data: &data, pos: 0, rng: Rng(tried + mode as u64), mode, fail_at: None };
+                match guarded(|| Dictionary::read(rdr).is_ok()) {
+                    Ok(false) => {}
+                    Ok(true) => ctx.violation("foreign_magic_accepted", "C09:foreign_magic_accepted_from_chunked_reader", format!("{what} (reader mode {mode})"), json!({"what": what, "reader": if mode == 0 { "1 byte per call" } else { "short first chunk, then random chunks" }})),
+                    Err(p) => ctx.violation("read_panicked_on_foreign_magic", &format!("C09:magic:{}", panic_class(&p)), format!("{what}: {p}"), json!({"what": what})),
+                }
+            }
         };
         for i in 0..MAGIC.len() {
             for delta in 1..=255u8 {
@@ -491,6 +502,9 @@ pub fn c09_case(ctx: &mut Ctx, _rng: &mut Rng, stage: &str) {
         }
         for k in 0..MAGIC.len() {
             bad(ctx, MAGIC[..k].to_vec(), format!("only the first {k} header bytes"));
+            let mut v = MAGIC[..k].to_vec();
+            v.extend_from_slice(&img[MAGIC.len()..]);
+            bad(ctx, v, format!("only the first {k} header bytes, followed by a valid body"));
         }
         for old in ["VibratoTokenizer 0.4\n", "VibratoTokenizer 0.3\n", "vibratotokenizer 0.5\n", "VibratoTokenizer 0.5\r"] {
             let mut v = old.as_bytes().to_vec();
@@ -545,7 +559,8 @@ pub fn c11_case(ctx: &mut Ctx, rng: &mut Rng) {
         };
         let mut cells: Vec<String> = vec![];
         for c in 0..ncol {
-            cells.push(match rng.below(7) {
+            cells.push(match rng.below(8) {
+                7 => "t\t".into(),
                 0 => "*".into(),
                 1 => format!("\"q,{i}\""),
                 2 => format!("\"d\"\"q{c}\""),
@@ -562,6 +577,11 @@ pub fn c11_case(ctx: &mut Ctx, rng: &mut Rng) {
             _ => rng.range(-500, 500) as i16,
         };
         rows.push(LexRow { surface, l: rng.below(3) as u16, r: rng.below(5) as u16, cost, feat });
+        if rng.chance(0.1) {
+            // the same row once more, verbatim and adjacent: two words
+            let again = rows.last().unwrap().clone();
+            rows.push(again);
+        }
     }
     // serialise with random per-field quoting, blank lines, with/without the final newline
     let mut csv = String::new();
@@ -1247,5 +1267,24 @@ pub fn c07_witnesses(ctx: &mut Ctx) {
         },
         BuildOutcome::Err(e) => ctx.note(format!("C07 witness id 65535: builder rejected: {e}")),
         BuildOutcome::Panic(p) => ctx.violation("raw_connector_build_panicked", "C07:witness:id-65535", p, case),
+    }
+    // dual connector whose pre-summed (matrix) part is exactly the lowest 16-bit value: 16 template positions
+    // of -4096 each; whichever 8 of them the split pre-sums, that part is -32768 and the whole cost -65536
+    let feats = |t: &str| (0..16).map(|i| format!("{t}{i}")).collect::<Vec<_>>().join(",");
+    let mut cost = String::new();
+    for i in 0..16 {
+        cost += &format!("r{i}/l{i}\t-4096\n");
+    }
+    let conn = ConnTexts::Bigram { right: format!("1\t{}\n", feats("r")).into_bytes(), left: format!("1\t{}\n", feats("l")).into_bytes(), cost: cost.into_bytes(), dual: true };
+    ctx.eval();
+    let case = json!({"bigram.right": "1\tr0,...,r15", "bigram.left": "1\tl0,...,l15", "bigram.cost": "r<i>/l<i>\t-4096 for i = 0..15", "dual": true});
+    match build_from_texts(b"a,1,1,0,A\n", b"DEFAULT 0 1 0\n", b"DEFAULT,0,0,100,U\n", &conn) {
+        BuildOutcome::Ok(d) => match guarded(|| (vibrato::verif::conn_cost(&d, 1, 1), vibrato::verif::conn_cost(&d, 0, 1), vibrato::verif::conn_cost(&d, 1, 0))) {
+            Ok((-65536, 0, 0)) => ctx.bucket("witness_dual_presum_exactly_i16_min_ok"),
+            Ok(v) => ctx.violation("dual_connector_differs_from_defining_sum", "C07:witness:dual-presum-i16-min", format!("costs (1,1), (0,1), (1,0) = {:?}, expected (-65536, 0, 0)", v), case),
+            Err(p) => ctx.violation("dual_connector_lookup_panicked", "C07:witness:dual-presum-i16-min", p, case),
+        },
+        BuildOutcome::Err(e) => ctx.note(format!("C07 witness dual presum: builder rejected: {e}")),
+        BuildOutcome::Panic(p) => ctx.violation("dual_connector_build_panicked", "C07:witness:dual-presum-i16-min", p, case),
     }
 }
